@@ -1353,6 +1353,134 @@ def sdp_server_oracle(ops, per_op):
     return None
 
 
+def _seq_bytes_py(data):
+    n = len(data)
+    hdr = bytes([0x35, n]) if n <= 0xFF else bytes([0x36, n >> 8, n & 0xFF]) if n <= 0xFFFF else bytes([0x37]) + n.to_bytes(4, 'big')
+    return hdr + data
+
+
+def expected_response(recs, q):
+    """the complete answer a well-formed transaction started by the fresh request q must add up to, from the
+    record table alone: ('error', code) | ('handles', total, [handles]) | ('bytes', payload)"""
+    table = dict((h, a) for h, a in recs)
+
+    def attr_list(attrs):
+        return _seq_bytes_py(b''.join(b'\x09' + bytes([i >> 8, i & 0xFF]) + b for i, b in expected_attrs(attrs, q['ids'])))
+    if q['kind'] == 'search':
+        hs = expected_matches(recs, q['pattern'])
+        return ('handles', len(hs), hs[:q['max']])
+    if q['kind'] == 'attr':
+        if q['handle'] not in table:
+            return ('error', 2)
+        return ('bytes', attr_list(table[q['handle']]))
+    lists = []
+    for h in expected_matches(recs, q['pattern']):
+        if expected_attrs(table[h], q['ids']):
+            lists.append(attr_list(table[h]))
+    return ('bytes', _seq_bytes_py(b''.join(lists)))
+
+
+def _q_key(q):
+    return json.dumps({k: v for k, v in q.items() if k not in ('cont', 'variant')}, sort_keys=True)
+
+
+def sdp_content_oracle(recs, ops, per_op):
+    """every client that runs a well-formed transaction (a fresh request, then continuation requests of the same
+    request while the server says there is more) receives pieces that add up to exactly the expected answer --
+    whatever the other clients do in between, including connecting and closing their channels"""
+    tx = {}
+    for i, (o, (outs, crashed)) in enumerate(zip(ops, per_op)):
+        if o[0] != 'request':
+            tx.pop(o[1], None)
+            continue
+        c, q = o[1], o[2]
+        if len(outs) != 1:
+            tx.pop(c, None)
+            continue
+        kind, code, payload, more = outs[0][3][:4]
+        if q['cont'] == 'fresh':
+            tx[c] = {'key': _q_key(q), 'exp': expected_response(recs, q), 'acc': [], 'pieces': 0}
+        elif not (q['cont'] == 'valid' and c in tx and tx[c]['key'] == _q_key(q)):
+            tx.pop(c, None)
+            continue
+        t = tx[c]
+        t['pieces'] += 1
+        exp = t['exp']
+        others = sorted({x[1] for x in ops[:i] if x[0] in ('connect', 'disconnect') and x[1] != c})
+        ctxt = (f'client {c} {q["kind"]} transaction, piece {t["pieces"]} (op {i}); other clients {others}; '
+                f'last event before it: {ops[i - 1][0]} {ops[i - 1][1]}')
+        closing = 'after-close' if ops[i - 1][0] == 'disconnect' and ops[i - 1][1] != c else 'interleaved' if others else 'alone'
+        if exp[0] == 'error':
+            if [kind, code] != [1, exp[1]]:
+                return f'content:{q["kind"]}:expected-error', f'{ctxt}: expected error {exp[1]}, got kind {kind} code {code}'
+            tx.pop(c)
+            continue
+        if kind == 1:
+            return (f'content:{q["kind"]}:error-mid-transaction:{closing}',
+                    f'{ctxt}: answered with SDP error {code} instead of the next piece')
+        want_kind = {'search': 3, 'attr': 5, 'sattr': 7}[q['kind']]
+        if kind != want_kind or (exp[0] == 'handles' and code != exp[1]):
+            return f'content:{q["kind"]}:wrong-response', f'{ctxt}: response kind {kind} / total {code}'
+        t['acc'] += list(payload)
+        full = list(exp[2]) if exp[0] == 'handles' else list(exp[1])
+        if t['acc'] != full[:len(t['acc'])] or (not more and t['acc'] != full):
+            return (f'content:{q["kind"]}:wrong-data:{closing}',
+                    f'{ctxt}: the pieces received so far ({len(t["acc"])} items, more={more}) are not the expected answer ({len(full)} items)')
+        if not more:
+            tx.pop(c)
+    return None
+
+
+CLOSE_STATES = ['saved-none', 'saved-none-after-attr', 'saved-tuple', 'own-partial', 'current']
+
+
+def close_family(rng, per_combo):
+    """a client's L2CAP channel closes between two partial responses of another client, for every state the closing
+    client can be in: only connected (a None entry is saved for it), after a completed attribute transaction, after a
+    completed service search (a (total, []) tuple is saved), with its own partial answer pending, and being the one
+    served (no saved entry)"""
+    u = list(UUID_POOL[0])
+    other = list(UUID_POOL[3])
+    recs = []
+    for k in range(12):
+        h = 0x40000 + 3 * k
+        attrs = [[0, ['u32', h]], [1, ['seq', [['uuid', u]] + ([['uuid', other]] if k < 2 else [])]]]
+        if k == 0:
+            attrs.append([0x100, ['text', 150, 65, 1]])
+        recs.append([h, attrs])
+    a_calls = [({'kind': 'search', 'pattern': [u], 'max': 0xFFFF}, 2),
+               ({'kind': 'attr', 'handle': recs[0][0], 'ids': [[0, 0xFFFF]], 'max': 0xFFFF}, None),
+               ({'kind': 'sattr', 'pattern': [u], 'ids': [[0, 1]], 'max': 0xFFFF}, None)]
+    cases = []
+    for qa, pieces in a_calls:
+        exp = expected_response(recs, qa)
+        if pieces is None:
+            pieces = -(-len(exp[1]) // 39)
+        for state in CLOSE_STATES:
+            ks = rng.shuffle(list(range(1, pieces)))[:per_combo]
+            for k in ks:
+                A, B = 1, 2
+                ops = [['connect', A, 48], ['connect', B, 64]] if rng.chance(1, 2) else [['connect', B, 64], ['connect', A, 48]]
+                small = {'kind': 'attr', 'handle': recs[1][0], 'ids': [0], 'max': 0xFFFF, 'cont': 'fresh', 'variant': 0}
+                if state == 'saved-none-after-attr':
+                    ops.append(['request', B, small, 64])
+                elif state == 'saved-tuple':
+                    ops.append(['request', B, {'kind': 'search', 'pattern': [other], 'max': 0xFFFF, 'cont': 'fresh', 'variant': 0}, 64])
+                elif state == 'own-partial':
+                    ops.append(['request', B, {'kind': 'attr', 'handle': recs[0][0], 'ids': [[0, 0xFFFF]], 'max': 0xFFFF,
+                                               'cont': 'fresh', 'variant': 0}, 64])
+                ops.append(['request', A, dict(qa, cont='fresh', variant=0), 48])
+                for _ in range(k - 1):
+                    ops.append(['request', A, dict(qa, cont='valid', variant=0), 48])
+                if state == 'current':
+                    ops.append(['request', B, small, 64])
+                ops.append(['disconnect', B])
+                for _ in range(pieces - k):
+                    ops.append(['request', A, dict(qa, cont='valid', variant=0), 48])
+                cases.append((recs, ops, state))
+    return cases
+
+
 # ---- end to end: real Client against real Server over the in-memory channel pair
 class Pump:
     """FIFO delivery with rng-chosen delays (loop turns), order preserved per direction"""
@@ -1673,6 +1801,9 @@ def run_sdp(ctx):
         mtus = [rng.choice(MTUS) for _ in range(nclients)]
         recs = gen_records(rng, rng.choice([1, 2, 3, 5, 9]), big=rng.choice([0, 0, 60, 200, 700]))
         cases.append((recs, gen_server_ops(rng, recs, nclients, mtus, rng.choice([4, 8, 16, 30]))))
+    for recs_, ops_, state in close_family(rng, ctx.n(1, 3)):
+        cases.append((recs_, ops_))
+        ctx.count('sdp.server.close_family.' + state)
     exprs = [f"map (fun cr => (fst cr, rdig (snd cr))) (snd (s_run {records_coq(recs)} s_init {sdp_ops_coq(ops)}))"
              for recs, ops in cases]
     model = ctx.coq_eval(M_SDP, exprs, preamble=sdp_preamble(), shard=20)
@@ -1696,7 +1827,7 @@ def run_sdp(ctx):
             m, flat = m[:cut], flat[:cut]
         if m != flat:
             ctx.disagree('sdp Server', {'recs': recs, 'ops': ops}, m, flat)
-        bad = sdp_server_oracle(ops, per_op)
+        bad = sdp_server_oracle(ops, per_op) or sdp_content_oracle(recs, ops, per_op)
         if bad:
             ctx.violation('sdp:server:' + bad[0], 'SDP server: ' + bad[1], {'kind': 'sdp_server', 'recs': recs, 'ops': ops})
     # ---- end to end: real Client(s) against the real Server
@@ -1810,6 +1941,17 @@ def search(ctx):
             if sig != 'avctp:pid-expected-in-continuation':
                 ctx.violation(sig, text, {'kind': 'avctp_seq', 'segments': segs})
                 return
+    fam = [(r_, o_) for r_, o_, _ in close_family(rng, 4)]
+    for _ in range(300):
+        nclients = rng.choice([2, 2, 3])
+        recs_ = gen_records(rng, rng.choice([2, 3, 5]), big=rng.choice([60, 200, 700]))
+        fam.append((recs_, gen_server_ops(rng, recs_, nclients, [rng.choice(MTUS[:9]) for _ in range(nclients)], rng.choice([8, 16, 30]))))
+    for recs_, ops_ in fam:
+        per_op = sdp_server_impl(recs_, ops_)
+        bad = sdp_server_oracle(ops_, per_op) or sdp_content_oracle(recs_, ops_, per_op)
+        if bad:
+            ctx.violation('sdp:server:' + bad[0], 'SDP server: ' + bad[1], {'kind': 'sdp_server', 'recs': recs_, 'ops': ops_})
+            return
     for _ in range(400):
         sc = gen_e2e(rng, big_ok=False)
         before = len(ctx.violations)
@@ -1860,7 +2002,7 @@ def replay(ctx, obj):
         per_op = sdp_server_impl(r['recs'], r['ops'])
         for o, (outs, crashed) in zip(r['ops'], per_op):
             print(o[0], o[1], '->', [(cid, p[:2], len(p[2]), p[3]) for cid, _, _, p in outs], crashed or '')
-        bad = sdp_server_oracle(r['ops'], per_op)
+        bad = sdp_server_oracle(r['ops'], per_op) or sdp_content_oracle(r['recs'], r['ops'], per_op)
         print('oracle:', 'VIOLATED ' + bad[1] if bad else 'holds')
     elif k == 'sdp_e2e':
         sc = r['scenario']
